@@ -189,6 +189,8 @@ class Interp:
         self.stats = Stats()
         self.models = models
         self.concrete = False       # concrete mode: no solver at all
+        self._upvars = {}
+        self.cur_stmt = None
         self.float_mode = 'exact'   # 'exact' (SymF) | 'fp' (z3 Float64)
         self.max_blocks = 2_000_000
         self.native = None
@@ -668,6 +670,10 @@ class Interp:
             f = self.items[self.prog.by_suffix[n]]
         if f is not None:
             return lambda I, *a, _f=f: I.exec_fn(_f, list(a))
+        if self.models is not None:
+            h = self.models.lookup_suffix(n)
+            if h is not None:
+                return h
         raise Unsupported('call to unknown function: %s   [%s]' % (n, callee))
 
     # ------------------------------------------------------------ places
@@ -714,6 +720,14 @@ class Interp:
                 l, a, b = self.models.as_list(v)
                 i = (b - pr[1]) if pr[2] else (a + pr[1])
                 ptr = Ptr(l, i)
+            elif k == 'subslice':
+                v = ptr.get()
+                l, a, b = self.models.as_list(v)
+                lo = a + pr[1]
+                hi = (b - pr[2]) if pr[3] else (a + pr[2])
+                if not a <= lo <= hi <= b:
+                    raise Panic('subslice pattern out of range')
+                ptr = Ptr([Slice(l, lo, hi)], 0)
             else:
                 raise Unsupported('projection ' + k)
         return ptr
@@ -765,6 +779,8 @@ class Interp:
         n = normalize(c)
         if n in ('OverflowError',):
             return Agg(n, [])
+        if re.match(r'^(std::option::|core::option::)?Option::None$', n):
+            return NONE()
         f = self.items.get(n)
         if f is None and n in self.prog.by_suffix:
             f = self.items[self.prog.by_suffix[n]]
@@ -788,9 +804,23 @@ class Interp:
         raise Unsupported('const ' + c)
 
     # ------------------------------------------------------------ statements
+    def closure_upvars(self, name):
+        """number of captured places the closure body reads (highest `_1.K` field + 1)"""
+        c = self._upvars.get(name)
+        if c is None:
+            cf = self.prog.closure_fn.get(name)
+            c = 0
+            if cf is not None:
+                txt = '\n'.join('\n'.join(r) for r in cf.raw.values())
+                ks = [int(x) for x in re.findall(r'\(\(?\*?_1\)?\.(\d+): ', txt)]
+                c = max(ks) + 1 if ks else 0
+            self._upvars[name] = c
+        return c
+
     def exec_stmt(self, f, L, st, term):
         k = st[0]
         if k == 'assign':
+            self.cur_stmt = st
             v = self.rvalue(f, L, st[2], st[3], term)
             local, projs = st[1]
             if not projs:
@@ -821,7 +851,7 @@ class Interp:
         if k == 'ref':
             ptr = self.place(f, L, r[1])
             projs = r[1][1]
-            if projs and projs[-1][0] == 'deref':
+            if projs and projs[-1][0] in ('deref', 'subslice'):
                 # reborrow of an unsized place (str / [T]): the fat reference is its own value
                 try:
                     v = ptr.get()
@@ -875,7 +905,16 @@ class Interp:
             n = int(re.match(r'\d+', r[2].replace('const ', '')).group(0))
             return Agg('[]', [copyval(v) for _ in range(n)])
         if k == 'closure':
-            return Agg(r[1], [self.operand(f, L, x) for _, x in r[2]])
+            fields = [self.operand(f, L, x) for _, x in r[2]]
+            need = self.closure_upvars(r[1])
+            if need > len(fields):
+                extra = self.cur_stmt[4] if self.cur_stmt is not None and len(self.cur_stmt) > 4 else []
+                missing = need - len(fields)
+                if len(extra) < missing:
+                    raise Unsupported('closure aggregate printed with %d of %d captured places and the rest cannot be '
+                                      'recovered from the MIR text: %s' % (len(fields), need, r[1]))
+                fields += [self.operand(f, L, x) for x in extra[-missing:]]
+            return Agg(r[1], fields)
         if k == 'struct':
             name = normalize(r[1]).split('::')[-1]
             return Agg(name, [self.operand(f, L, x) for _, x in r[2]])
